@@ -326,6 +326,18 @@ example :
   simp only [loadPartial, Files.read, if_true]
   rfl
 
+/-- two failed attempts (nothing left, then half of the payload left under the name), third attempt succeeds: the
+object is the whole snapshot -/
+example :
+    writeRetry [] (partialName 100 200) [10, 20, 30, 40] (saveRetries + 1) [.fail none, .fail (some [10, 20])]
+      = some [(partialName 100 200, [10, 20, 30, 40])] := by
+  simp [writeRetry, Files.write, saveRetries]
+
+/-- eleven failed attempts use up the ten retries: the Save reports the error -/
+example :
+    writeRetry [] (partialName 100 200) [1] (saveRetries + 1) (List.replicate 11 (.fail none)) = none := by
+  simp [writeRetry, saveRetries, List.replicate]
+
 /-- names: the literal strings; beyond ten digits the name still parses back -/
 example : partialName 1000 2000 = "0000002000-0000001000.partial".toList := by
   simp [partialName, pad10, decimal, decimalRev, digitChar, partialSuffix]
